@@ -612,7 +612,8 @@ class Summaries:
         if self.abstract_fields and sort_of(dst)[0] == "field" and sort_of(src)[0] in ("int", "bool"):
             if Tm.is_lit(a[0]):
                 return felem(sort_of(dst)[1], int(a[0].args[0]))
-            return mk("of_int", sort_of(dst)[1], a[0])
+            if self.abstract_glue:
+                return mk("of_int", sort_of(dst)[1], a[0])
         # a local From impl?
         p = I.prog.find_impl_item("core::convert::From<%s>" % src, dst, "from")
         if p is not None and I.prog.body(p) is not None:
@@ -627,7 +628,8 @@ class Summaries:
         if self.abstract_fields and ds[0] == "field" and ss[0] in ("int", "bool"):
             if Tm.is_lit(a[0]):
                 return felem(ds[1], int(a[0].args[0]))
-            return mk("of_int", ds[1], a[0])
+            if self.abstract_glue:
+                return mk("of_int", ds[1], a[0])
         if (ss[0], ds[0]) in (("teproj", "teaff"), ("teaff", "teproj")):
             ctx.effect("repr_change", a[0])
             return mk("to_" + ds[0], a[0])
